@@ -159,7 +159,7 @@ static void point(int kind, const void *obj) {
 static inline bool is_static(const void *a) { uintptr_t p = (uintptr_t)a; return p >= st_lo && p < st_hi; }
 
 static void add_race(uintptr_t addr, int t1, int w1, int t2, int w2) {
-  for (auto &r : *races) if (r.addr == addr) return;
+  for (auto &r : *races) if ((r.addr >> 3) == (addr >> 3)) return;      // one entry per 8-byte granule
   if (races->size() < 512) races->push_back(Race{addr, (uint8_t)t1, (uint8_t)w1, (uint8_t)t2, (uint8_t)w2});
 }
 
@@ -193,7 +193,11 @@ static void static_access(const void *a, unsigned size, int is_write) {
     } else {
       sh_ls[o] &= held[t];
       if (is_write) sh_state[o] = 3;
-      if (sh_state[o] == 3 && !sh_ls[o]) add_race(st_lo + o, sh_owner[o], 1, t, (is_write ? 1 : 0) | 2);
+      if (sh_state[o] == 3 && !sh_ls[o]) {
+        int other = sh_owner[o];
+        if (other == t) for (int u = 0; u < nth; u++) if (u != t && (sh_touch[o] & (1u << u))) { other = u; break; }
+        add_race(st_lo + o, other, 1, t, (is_write ? 1 : 0) | 2);
+      }
     }
   }
   if (races->size() > nr0 + 1) races->resize(nr0 + 1);      // one entry per racing access, not per byte
